@@ -346,31 +346,12 @@ def _clause_holds(c, asg):
     return True
 
 
-@rule('C19', 'R10', 'placement table: replicas per block = all cores (Unlimited), min(n, cores) (Limited), one per host (Host), one (One); Replication::intersect keeps the narrower one; local ids = replica index')
-def c19_r10(ctx):
+def intersect_table(ctx):
+    """Replication::intersect(a, b) is how `replication(One)` (fold, reduce, zip, collect, window_all ...) narrows a block: the result
+    must be the narrower of the two for all 16 combinations, in particular x ∩ One = One for every x"""
     facts = ctx.facts
     REPL = 'renoir::block::Replication'
     vs = facts.variants(REPL)
-    # --- clamp(n)
-    f = facts.method(REPL, 'clamp')
-    tab = _ret_table(facts, f)
-    seen = {}
-    for tb, (val, dnf) in tab.items():
-        for c in dnf:
-            for v in vs:
-                if _clause_holds(c, {'self': v}) is True or _clause_holds(c, {'*self': v}) is True:
-                    seen.setdefault(v, set()).add(val)
-    ctx.inst('clamp|table', {v: sorted(x) for v, x in seen.items()})
-    want = {'Unlimited': lambda x: re.fullmatch(r'arg\d', x) is not None,
-            'Limited': lambda x: 'Ord::min(' in x and re.search(r'arg\d', x) and 'Limited' in x,
-            'Host': lambda x: x.startswith('1_'), 'One': lambda x: x.startswith('1_')}
-    for v in vs:
-        vals = seen.get(v)
-        if not vals:
-            raise Inconclusive('Replication::clamp: no return value found for variant %s' % v)
-        if v in want and not all(want[v](x) for x in vals):
-            ctx.viol('%s|clamp|%s' % (f.path, v), f.at, 'Replication::clamp returns `%s` for %s; required: Unlimited -> n, Limited(q) -> min(n, q), '
-                     'Host -> 1, One -> 1 (the number of replicas of a block on a host)' % (sorted(vals), v), None)
     # --- intersect(a, b): the narrower of the two, for all 16 combinations
     g = facts.method(REPL, 'intersect')
     tab = _ret_table(facts, g)
@@ -399,6 +380,49 @@ def c19_r10(ctx):
                 ctx.viol('%s|intersect|%s,%s' % (g.path, va, vb), g.at, 'Replication::intersect(%s, %s) yields %s; the narrower of the two (%s%s) is required: '
                          'a block restricted by two constraints must satisfy both' % (va, vb, sorted(outs), exp, ' with min(n, m)' if va == vb == 'Limited' else ''), None)
     ctx.inst('intersect|table', {'rows': rows, 'returns': sorted(v for v, _ in tab.values())})
+
+
+@rule('C09', 'R6', 'zip runs on one replica whatever the inputs\' replication: Replication::intersect(x, One) = One (full 16-row table)')
+def c09_r6(ctx):
+    intersect_table(ctx)
+
+
+@rule('C07', 'R7', 'global folds run on one replica whatever the input\'s replication: Replication::intersect(x, One) = One (full 16-row table)')
+def c07_r7(ctx):
+    intersect_table(ctx)
+
+
+@rule('C01', 'R5', 'replication(One) funnels really yield one replica: Replication::intersect is the narrower of its arguments (full 16-row table)')
+def c01_r5(ctx):
+    intersect_table(ctx)
+
+
+@rule('C19', 'R10', 'placement table: replicas per block = all cores (Unlimited), min(n, cores) (Limited), one per host (Host), one (One); Replication::intersect keeps the narrower one; local ids = replica index')
+def c19_r10(ctx):
+    facts = ctx.facts
+    REPL = 'renoir::block::Replication'
+    vs = facts.variants(REPL)
+    # --- clamp(n)
+    f = facts.method(REPL, 'clamp')
+    tab = _ret_table(facts, f)
+    seen = {}
+    for tb, (val, dnf) in tab.items():
+        for c in dnf:
+            for v in vs:
+                if _clause_holds(c, {'self': v}) is True or _clause_holds(c, {'*self': v}) is True:
+                    seen.setdefault(v, set()).add(val)
+    ctx.inst('clamp|table', {v: sorted(x) for v, x in seen.items()})
+    want = {'Unlimited': lambda x: re.fullmatch(r'arg\d', x) is not None,
+            'Limited': lambda x: 'Ord::min(' in x and re.search(r'arg\d', x) and 'Limited' in x,
+            'Host': lambda x: x.startswith('1_'), 'One': lambda x: x.startswith('1_')}
+    for v in vs:
+        vals = seen.get(v)
+        if not vals:
+            raise Inconclusive('Replication::clamp: no return value found for variant %s' % v)
+        if v in want and not all(want[v](x) for x in vals):
+            ctx.viol('%s|clamp|%s' % (f.path, v), f.at, 'Replication::clamp returns `%s` for %s; required: Unlimited -> n, Limited(q) -> min(n, q), '
+                     'Host -> 1, One -> 1 (the number of replicas of a block on a host)' % (sorted(vals), v), None)
+    intersect_table(ctx)
     # --- local placement: replicas 0..clamp(replication, parallelism), global id == replica index
     lf = facts.method(SCHED, 'local_block_info')
     sym = q.sym(facts, lf)
@@ -461,3 +485,10 @@ def c19_r10(ctx):
             if v == 'One' and not (n.startswith('1_') and not per_host and 'host_id' not in args[1]):
                 ctx.viol('%s|remote-count|One' % rf.path, at, 'One replication creates `%s` replicas on host `%s` (required: exactly one, on a host every machine '
                          'agrees on)' % (n, args[1]), None)
+
+
+@rule('C15', 'R6', 'the partition index the parallel sources use is a distinct index in [0, #replicas): global ids are handed out by one running counter')
+def c15_r6(ctx):
+    """C15.R1 shows that sources split by metadata.global_id / replicas.len(); that is an exact split only if the global ids of a
+    block are the distinct numbers 0..n-1 whatever the hosts' core counts (the scheduler's side of the same contract)"""
+    c19_r3(ctx)
